@@ -78,3 +78,53 @@ Proof. exact pending_exact. Qed.
 Example C02_pending_exact_nonvacuous : is_ok (wrun toy_expand toy_join toy_join toy_sorted (world0 toy_conf) (firstn 4 wevs)) = true.
 Proof. vm_compute. reflexivity. Qed.
 Print Assumptions C02_pending_exact.
+
+(* ------------------------------------------------------------------------------------------------------------------
+   The device half of "success only if every script ran to completion" (Proofs/DeviceSuccess.v, over Model/Device.v).
+   One iteration of _process_action, from any state of the device invariant, for any device behaviour: a completion
+   with ACT_ESUCCESS is reported only for the HEAD action, only while the device is connected and the head is within
+   its deadline, and only by the iteration in which the interpreter finished the action's last statement with the error
+   code still ACT_ESUCCESS - which is the `Completed` step of the whole-run refinement C08_refines (a `Done` trace:
+   every statement of the script once, every expect matched).  A time-out (connect / login / expect), a failed
+   statement, and the abort of the actions queued behind a failed head all report a code different from ACT_ESUCCESS.
+   The client half is C02_power_reply (102 iff no failed completion and no unsuccessful per-plug result); that each
+   completion reaches its own client exactly once is C04_daemon_invariant. *)
+From PM Require Import Model.Script Model.Device Proofs.DeviceInvG Proofs.DeviceSuccess Proofs.ScriptSim.
+Theorem C02_success_only_when_script_finished : forall rmatch compress sc now d store tmo plans r,
+  DInvG compress d -> pa_step rmatch compress sc now d store tmo plans = Ok r ->
+  forall e, In e (pa_events r) -> is_success e = true ->
+  exists act0 rest, dv_acts d = act0 :: rest /\ a_hascb act0 = true /\ e = EvComplete (a_client act0) ACT_ESUCCESS [] /\
+    finishing rmatch compress sc now d store act0 /\
+    exists sd' a'' store' obs evs0,
+      step1 rmatch compress sc now (dv d) (set_stamp (Some (match a_stamp act0 with Some t => t | None => now end)) act0) store
+        = Ok (Completed, sd', a'', store', obs, evs0) /\ a_exec a'' = [].
+Proof.
+  intros rm cp sc now d store tmo plans r I H e Hin Hs.
+  destruct (pa_step_success rm cp sc now d store tmo plans r I H e Hin Hs) as (act0 & rest & A & B & C & F).
+  exists act0, rest. repeat split; auto. exact (finishing_step1 rm cp sc now d store act0 F).
+Qed.
+Print Assumptions C02_success_only_when_script_finished.
+(* every failure path reports a failure *)
+Theorem C02_failures_report_failure : forall now d act rest store tmo plans pre r,
+  a_err act <> ACT_ESUCCESS -> (forall e, In e pre -> is_success e = false) ->
+  fail_and_reconnect now d act rest store tmo plans pre = Ok r -> forall e, In e (pa_events r) -> is_success e = false.
+Proof. exact fail_and_reconnect_no_success. Qed.
+Print Assumptions C02_failures_report_failure.
+(* non-vacuity: a connected, logged-in device whose head action `on p1` (client 7) waits at its last statement `expect "done"`
+   and whose input buffer holds "done": the iteration reports success for client 7; the same device past the deadline reports
+   a failure instead *)
+Definition ex02_p1 : plug := mkPlug (bslit "p1") (Some (bslit "n1")).
+Definition ex02_scripts : list (Z * list stmt) :=
+  [(PM_LOG_IN, [Send (bslit "login\n"); Expect (bslit "ok")]); (PM_POWER_ON, [Send (bslit "on %s\n"); Expect (bslit "done")])].
+Definition ex02_rm : text -> text -> option pmatch := fun re s => if text_eqb re (bslit "done") then Some [Some (O, 4%nat)] else None.
+Definition ex02_dev : device :=
+  mkDevice (mkSdev (bslit "d0") [ex02_p1] (bslit "done") [] None false) ex02_scripts 5000000 0 DEV_CONNECTED true true
+           [advance (create_action [Send (bslit "on %s\n"); Expect (bslit "done")] PM_POWER_ON (Some [ex02_p1]) 7 true false true (Some O))]
+           0 1 0 1 0 MIN_DEV_BUF.
+Example C02_success_nonvacuous :
+  (exists r, pa_step ex02_rm (fun l => concat l) false 1000000 ex02_dev [[]] None [] = Ok r /\
+             pa_events r = [EvMatched 4; EvComplete 7 ACT_ESUCCESS []]) /\
+  (exists r, pa_step ex02_rm (fun l => concat l) false 6000000 (set_acts (map (set_stamp (Some 1)) (dv_acts ex02_dev)) ex02_dev) [[]] None [] = Ok r /\
+             existsb is_success (pa_events r) = false /\
+             existsb (fun e => match e with EvComplete c _ _ => Z.eqb c 7 | _ => false end) (pa_events r) = true).
+Proof. split; eexists; vm_compute; repeat split. Qed.
